@@ -275,7 +275,11 @@ impl World {
 						height: h,
 						style,
 						sink: Arc::new(SimBroadcaster::new()),
-						release_events: (cid.0[1] ^ self.cfg.node_seed as u8) % 4 != 0,
+						release_events: match std::env::var("VERIF_SHADOW_RELEASE").ok().as_deref() {
+							Some("0") => false,
+							Some("1") => true,
+							_ => (cid.0[1] ^ self.cfg.node_seed as u8) % 4 != 0,
+						},
 					},
 				);
 			}
@@ -366,10 +370,13 @@ impl World {
 			let (ra, rb) = (fmt_rel(&live), fmt_rel(&sh.mon));
 			let (ta, tb) = (live.current_best_block(), sh.mon.current_best_block());
 			let style = sh.style;
-			let unreleased = !sh.release_events
-				&& self.out.counters.get("probe:reorg_removed_transactions").copied().unwrap_or(0) > 0;
+			// one side polled its pending monitor events before a reorganisation and the other did not
+			// (the shadow by its own rule, the live monitor because its manager had not been pumped)
+			let reorged = self.out.counters.get("probe:reorg_removed_transactions").copied().unwrap_or(0) > 0;
+			let live_unpolled = self.nodes[n].last_poll_step < self.last_reorg_step;
+			let unreleased = reorged && (!sh.release_events || live_unpolled);
 			let tag = if unreleased {
-				" [the shadow never polled its pending monitor events and a reorganisation removed transactions: a still-pending HTLCEvent suppresses re-recording the HTLC's resolution when it is re-confirmed]"
+				" [pending monitor events were polled on one side only (live or shadow) and a reorganisation removed transactions: a still-pending HTLCEvent suppresses re-recording the HTLC's resolution when it is re-confirmed]"
 			} else {
 				""
 			};
@@ -407,6 +414,9 @@ impl World {
 			return false;
 		}
 		let removed = self.chain.reorg(depth, readmit);
+		if !removed.is_empty() {
+			self.last_reorg_step = self.step;
+		}
 		self.oracle.last_fee.clear();
 		self.oracle.last_bump_rate.clear();
 		self.out.bump(&format!("fault:reorg_depth_{}", depth.min(7)));
